@@ -133,6 +133,9 @@ def iter_kind(ctx, func, it):
         return (None, None)
     if isinstance(it, ast.Attribute) and it.attr in ("coords", "payloads"):
         return (RAW, text(it.value))
+    if isinstance(it, ast.Subscript) and isinstance(it.slice, ast.Slice) and \
+            isinstance(it.value, ast.Attribute) and it.value.attr in ("coords", "payloads"):
+        return (RAW, text(it.value.value))
     if isinstance(it, ast.Name):
         from . import pat
         v = pat.single_def(ctx, func, it)
